@@ -27,6 +27,7 @@ type vfGenCtl struct {
 }
 
 type vfGen struct {
+	bfinal     bool // compressed messages end with a BFINAL block (RFC 7692 7.2.3.4)
 	fromClient bool
 	wire       []byte
 	msgs       []vfGenMsg
@@ -59,7 +60,7 @@ func (g *vfGen) ctl(op int, payload []byte, inMsg bool, dataSeen int) {
 func (g *vfGen) message(mt int, data []byte, comp bool, blk int, frags []int, ctlAfter int, ctlOp int, ctlPayload []byte) {
 	wp := data
 	if comp {
-		wp = specDeflateStored(data, blk, false)
+		wp = specDeflateStoredF(data, blk, g.bfinal)
 	}
 	// normalise fragment sizes to the wire payload length
 	var fl []int
@@ -101,11 +102,21 @@ var vfFragShapes = [][]int{{-1}, {0, -1}, {1, -1}, {2, -1}, {1, 2, -1}, {0, 0, -
 // vfGenStream builds a conformant stream of M messages from case-split shapes.
 func vfGenStream(fromClient bool, pmce bool, M int, lens []int, tier int) *vfGen {
 	g := &vfGen{fromClient: fromClient}
+	vfFlateEOFWithData = pmce
 	for i := 0; i < M; i++ {
 		n := vfPick(lens)
 		data := vfBytes(n)
 		mt := 1 + (n+i)%2
-		comp := pmce && vfChoose(2) == 1
+		comp := false
+		g.bfinal = false
+		if pmce {
+			switch vfChoose(3) {
+			case 1:
+				comp = true
+			case 2:
+				comp, g.bfinal = true, true // the message's deflate stream ends with a BFINAL block
+			}
+		}
 		blk := 0
 		if comp && n > 2 {
 			blk = vfPick([]int{0, 2})
@@ -732,4 +743,40 @@ func vfH_frame_nopanic() {
 	_, _, err := c.NextReader()
 	vfAssert(err != nil || tc.rpos > before || c.br.Buffered() >= 0, "c07-progress-or-error")
 	vfReach("frame-nopanic-end")
+}
+
+// vfH_abandon_compressed (C15/C03): a compressed message abandoned part-way,
+// followed by an uncompressed one (the peer toggled write compression) and
+// then a compressed one again: each later message decodes on its own terms.
+func vfH_abandon_compressed() {
+	vfInit()
+	readerIsServer := vfChoose(2) == 1
+	g := &vfGen{fromClient: readerIsServer}
+	g.bfinal = vfChoose(2) == 1
+	vfFlateEOFWithData = g.bfinal
+	firstComp := vfChoose(2) == 1
+	g.message(TextMessage, vfBytes(6), firstComp, 0, []int{4, -1}, -1, 0, nil)
+	g.message(BinaryMessage, vfBytes(5), !firstComp, 0, []int{2, -1}, -1, 0, nil)
+	g.message(TextMessage, vfBytes(3), true, 0, []int{-1}, -1, 0, nil)
+	tc := vfNewConn(g.wire)
+	if vfChoose(2) == 1 {
+		tc.chunkMode = vfChunkOne
+	}
+	rc := vfReaderConn(tc, readerIsServer, 125)
+	rc.newDecompressionReader = decompressNoContextTakeover
+	// message 1: read k bytes, then abandon
+	mt, r, err := rc.NextReader()
+	vfAssert(err == nil && mt == TextMessage, "c03-message-arrives")
+	k := vfChoose(3)
+	if k > 0 {
+		buf := make([]byte, k)
+		n, rerr := io.ReadFull(r, buf)
+		vfAssert(rerr == nil && n == k && vfAllEq(buf, g.msgs[0].data[:k]), "c03-partial-payload")
+	}
+	for _, m := range g.msgs[1:] {
+		mt, p, rerr := rc.ReadMessage()
+		vfAssert(rerr == nil, "c15-message-after-abandoned-one-decodes")
+		vfAssert(mt == m.mt && len(p) == len(m.data) && vfAllEq(p, m.data), "c03-payload")
+	}
+	vfReach("abandon-compressed-end")
 }
